@@ -15,7 +15,7 @@ reports positions in HarfBuzz's conventions (ltr, horizontal):
   advances of GDEF mark glyphs have been zeroed.
 """
 
-from vf.gen_fea import ADV, all_lookups, class_glyphs, gdef_class_map, skips
+from vf.gen_fea import ADV, all_lookups, gdef_class_map, skips
 
 GSUB_KIND = {"single": "gsub1", "multiple": "gsub2", "alternate": "gsub3", "ligature": "gsub4", "context": "gsub6", "reverse": "gsub8"}
 GPOS_KIND = {"spos": "gpos1", "cursive": "gpos3", "markbase": "gpos4", "marklig": "gpos5", "markmark": "gpos6", "cpos": "gpos8"}
